@@ -433,4 +433,154 @@ theorem Op.run_error {op : Op} {d d' : Doc} {e : Err} (hscr : d.scratch = none)
   | set p v => exact setValue_error hscr h
   | rm p => exact removeValue_error hscr h
 
+/-- a path that does not start with `@` has no scope selector -/
+theorem splitScopeNpath_plain {p : Text} (h : p.head? ≠ some '@') : splitScopeNpath p = .ok none := by
+  unfold splitScopeNpath
+  have : p.takeWhile (· == '@') = [] := by
+    cases p with
+    | nil => rfl
+    | cons c cs =>
+      have hc : c ≠ '@' := by simpa using h
+      have hb : (c == '@') = false := by simpa using hc
+      simp only [List.takeWhile, hb]
+  simp [this]
+
+/-- without a scope selector a rejected `set` returns exactly the state it started in -/
+theorem setValue_error_exact {p : Text} {v : ValueArg} {d d' : Doc} {e : Err}
+    (hp : splitScopeNpath p = .ok none) (h : setValue p v d = (.error e, d')) : d' = d := by
+  unfold setValue at h
+  split at h
+  · cases h; rfl
+  · cases h; rfl
+  · split at h
+    · cases h; rfl
+    · cases h; rfl
+    · rw [hp] at h
+      dsimp only at h
+      split at h
+      · cases h; rfl
+      · exact (setValueInAttrset_clean _ _ _ _ _ _ _ h).1
+
+theorem removeValue_error_exact {p : Text} {d d' : Doc} {e : Err}
+    (hp : splitScopeNpath p = .ok none) (h : removeValue p d = (.error e, d')) : d' = d := by
+  unfold removeValue at h
+  split at h
+  · cases h; rfl
+  · cases h; rfl
+  · rw [hp] at h
+    dsimp only at h
+    split at h
+    · cases h; rfl
+    · rename_i ts hr
+      have key : removeValueInAttrset ts p d = (.error e, d') := by
+        rw [← h]
+        unfold removeValueInAttrset
+        cases hf : formatNPath currentAnchor p with
+        | error e => rfl
+        | ok segs =>
+          cases segs with
+          | nil => rfl
+          | cons seg0 segRest =>
+            dsimp only
+            split
+            · rfl
+            · split
+              · split
+                · rfl
+                · split <;> rfl
+              · split <;> rfl
+      exact (removeValueInAttrset_clean _ _ _ _ _ key).1
+
+/-! ### histories -/
+
+theorem finalDoc_nil (d : Doc) : finalDoc d [] = d := rfl
+
+theorem finalDoc_cons (d : Doc) (r : Except Err Unit × Doc) (tr : List (Except Err Unit × Doc)) :
+    finalDoc d (r :: tr) = finalDoc r.2 tr := by
+  cases tr with
+  | nil => rfl
+  | cons x xs =>
+    have h : (x :: xs).getLast? = some ((x :: xs).getLast (by simp)) := List.getLast?_eq_some_getLast _
+    simp [finalDoc, List.getLast?_cons_cons, h]
+
+theorem runOps_cons (op : Op) (ops : List Op) (d : Doc) :
+    runOps (op :: ops) d = op.run d :: runOps ops (op.run d).2 := rfl
+
+/-- well-formedness is an invariant of histories, and `noTarget` never changes -/
+theorem runOps_wf (ops : List Op) : ∀ (d : Doc), WF d →
+    ∀ r ∈ runOps ops d, WF r.2 ∧ r.2.noTarget = d.noTarget := by
+  induction ops with
+  | nil => intro d _ r hr; cases hr
+  | cons op ops ih =>
+    intro d hd r hr
+    have k := Op.run_keeps op d (op.run d).1 (op.run d).2 rfl
+    rw [runOps_cons] at hr
+    rcases List.mem_cons.mp hr with rfl | hm
+    · exact ⟨hd.of_keeps k, k.1⟩
+    · obtain ⟨h1, h2⟩ := ih _ (hd.of_keeps k) r hm
+      exact ⟨h1, h2.trans k.1⟩
+
+theorem runOps_failed_step (ops : List Op) : ∀ (d : Doc) (i : Nat) (e : Err) (d' : Doc), WF d →
+    (runOps ops d)[i]? = some (.error e, d') →
+    Rejected (finalDoc d ((runOps ops d).take i)) e d' ∧
+      (finalDoc d ((runOps ops d).take i)).noTarget = d.noTarget ∧
+      WF (finalDoc d ((runOps ops d).take i)) := by
+  induction ops with
+  | nil => intro d i e d' _ h; simp [runOps] at h
+  | cons op ops ih =>
+    intro d i e d' hd h
+    rw [runOps_cons] at h ⊢
+    cases i with
+    | zero =>
+      simp only [List.getElem?_cons_zero, Option.some.injEq] at h
+      simp only [List.take_zero, finalDoc_nil]
+      exact ⟨Op.run_error hd.scratch h, trivial, hd⟩
+    | succ k =>
+      simp only [List.getElem?_cons_succ] at h
+      simp only [List.take_succ_cons, finalDoc_cons]
+      have kp := Op.run_keeps op d (op.run d).1 (op.run d).2 rfl
+      obtain ⟨h1, h2, h3⟩ := ih _ k e d' (hd.of_keeps kp) h
+      exact ⟨h1, h2.trans kp.1, h3⟩
+
+theorem runOps_lastGood (ops : List Op) : ∀ (d0 d : Doc), d0.same d → WF d →
+    (lastGood d0 (runOps ops d)).same (finalDoc d (runOps ops d)) := by
+  induction ops with
+  | nil => intro d0 d h _; exact h
+  | cons op ops ih =>
+    intro d0 d h hd
+    rw [runOps_cons, finalDoc_cons]
+    have kp := Op.run_keeps op d (op.run d).1 (op.run d).2 rfl
+    rcases hr : op.run d with ⟨r, d1⟩
+    rw [hr] at kp
+    cases r with
+    | ok u => exact ih d1 d1 (Doc.same_refl _) (hd.of_keeps kp)
+    | error e =>
+      have hs := (Op.run_error hd.scratch hr).1
+      exact ih d0 d1 (Doc.same_trans h hs) (hd.of_keeps kp)
+
+theorem Op.run_error_exact {op : Op} {d d' : Doc} {e : Err} (hp : op.plain)
+    (h : op.run d = (.error e, d')) : d' = d := by
+  cases op with
+  | set p v => exact setValue_error_exact (splitScopeNpath_plain hp) h
+  | rm p => exact removeValue_error_exact (splitScopeNpath_plain hp) h
+
+theorem runOps_goodOps (ops : List Op) : ∀ (d : Doc), (∀ op ∈ ops, op.plain) →
+    runOps (goodOps ops d) d = (runOps ops d).filter isOk := by
+  induction ops with
+  | nil => intro d _; rfl
+  | cons op ops ih =>
+    intro d hp
+    have hp' : ∀ o ∈ ops, o.plain := fun o ho => hp o (List.mem_cons_of_mem _ ho)
+    rw [runOps_cons]
+    rcases hr : op.run d with ⟨r, d1⟩
+    cases r with
+    | ok u =>
+      simp only [goodOps, hr, runOps_cons, List.filter, isOk]
+      rw [ih d1 hp']
+    | error e =>
+      have := Op.run_error_exact (hp op (List.mem_cons_self ..)) hr
+      subst this
+      simp only [goodOps, hr, List.filter, isOk]
+      exact ih _ hp'
+
 end Nima
